@@ -24,6 +24,8 @@ type Obligation struct {
 	Fn     *FnVC
 	Extra  []string // extra declarations local to this obligation (skolems)
 	Raw    string   // complete SMT text (lemma obligations)
+	skGoal  string   // goal after skolemisation of its universal quantifiers (memo)
+	skDecls []string
 	// result
 	Verdict string
 	Solver  string
@@ -932,6 +934,9 @@ func (c *FnVC) finish() {
 			c.bindResults(renv, c.fn.Signature, r.vals)
 			rev := c.newEval(c.fn, renv, r.heap, old)
 			for i, e := range c.ct.Ensures {
+				if e.AssumedOnly {
+					continue
+				}
 				conj := splitConjDeep(e.Expr, 0)
 				for j, cj := range conj {
 					t, err := rev.boolExpr(cj)
@@ -955,6 +960,9 @@ func (c *FnVC) finish() {
 		return
 	}
 	for i, e := range c.ct.Ensures {
+		if e.AssumedOnly {
+			continue
+		}
 		conj := splitConjDeep(e.Expr, 0)
 		for j, cj := range conj {
 			t, err := ev.boolExpr(cj)
